@@ -702,6 +702,23 @@ def rewrite_body(body, cls, decl, fname, args, all_method_cnames, extra_ids=(), 
             continue
         i += 1
 
+    # ---- rule Lf: a literal times a literal is the exact product literal (`15.0 / 14.0` is LIT(15,1) * LIT(1,14) after rule D).
+    # Exact rational arithmetic on the literal texts; also a work-around: CBMC 6.11's simplifier dies (std_expr.cpp) when IT folds a
+    # negative integer constant with a fraction (`- 15 * (1/14) * V`), so no constant-only product is left for it to fold.
+    i = 0
+    while i + 2 < len(toks):
+        a, o_, b = toks[i], toks[i + 1], toks[i + 2]
+        if a[0] == 'atom' and b[0] == 'atom' and o_ == ('op', '*') and a[1].startswith('LIT(') and b[1].startswith('LIT(') and \
+                (i == 0 or toks[i - 1][1] not in ('/', '%')):
+            from fractions import Fraction
+            n1, d1 = a[1][4:-1].split(',')
+            n2, d2 = b[1][4:-1].split(',')
+            fr = Fraction(int(n1), int(d1)) * Fraction(int(n2), int(d2))
+            toks[i:i + 3] = [('atom', 'LIT(%d,%d)' % (fr.numerator, fr.denominator))]
+            hit('Lf')
+            continue
+        i += 1
+
     # ---- rule SL: function-local statics.  C++: the initialiser runs once per process, on the first execution of the declaration,
     # and the object is shared by every instance of the class.
     #  SLc  initialiser mentions no argument, local, mutable member or member function: the value is the same in every call ->
